@@ -101,6 +101,60 @@ def setup(E):
         props=["C16", "C05"],
     ))
 
+    # ---- Entry.combine: optimum over all pairs of retained candidates
+    CAND = PT("rec", name="Candidate")
+    COMB = "combinator(Candidate(self._value, a), Candidate(other._value, b))"
+    INPAIR = "(a in self._infos and b in other._infos{EXTRA})"
+
+    def comb_clauses(extra):
+        inp = INPAIR.format(EXTRA=extra)
+        hit = f"({inp} and {COMB}.value == result._value and {COMB}.info == t and tag_truthy(t))"
+        return [
+            ("policies", "result._merge_policy == self._merge_policy and result._retention_policy == self._retention_policy"),
+            ("value-not-worse-than-any-pair",
+             f"forall(lambda a, b: implies({inp}, not better(self._merge_policy, {COMB}.value, result._value)), Tag, Tag)"),
+            ("value-is-attained",
+             f"result._value == worst(self._merge_policy) or exists(lambda a, b: {inp} and {COMB}.value == result._value, Tag, Tag)"),
+            ("tags-all", f"implies(self._retention_policy == RetentionPolicy.ALL, forall(lambda t: (t in result._infos) == exists(lambda a, b: {hit}, Tag, Tag), Tag))"),
+            ("tags-any-sound", f"implies(self._retention_policy == RetentionPolicy.ANY, forall(lambda t: implies(t in result._infos, exists(lambda a, b: {hit}, Tag, Tag)), Tag))"),
+            ("tags-any-nonempty", f"""implies(self._retention_policy == RetentionPolicy.ANY and exists(lambda t, a, b: {hit}, Tag, Tag, Tag),
+                                           exists(lambda t: t in result._infos, Tag))"""),
+            ("wf-none", "implies(result._retention_policy == RetentionPolicy.NONE, forall(lambda t: not (t in result._infos), Tag))"),
+            ("wf-any", "implies(result._retention_policy == RetentionPolicy.ANY, forall(lambda t, u: implies(t in result._infos and u in result._infos, t == u), Tag, Tag))"),
+            ("wf-truthy", "forall(lambda t: implies(t in result._infos, tag_truthy(t)), Tag)"),
+        ]
+
+    add(Contract(
+        f"{M}:Entry.combine",
+        params={"self": "Entry", "other": "Entry", "combinator": UFun("comb", [CAND, CAND], CAND)},
+        returns="Entry",
+        ensures=comb_clauses(""),
+        globals=G,
+        loops={0: LoopSpec(
+            header="for (ours, theirs) in product(self._infos, other.infos())", index="k", length="n", seq="P",
+            invariants=comb_clauses(" and P_idx(a, b) < k"))},
+        canary="result._value == worst(self._merge_policy)",
+        props=["C16", "C05"],
+        note="the combinator is a pure total function of its two arguments",
+    ))
+    # ---- Entry.__iter__: one candidate per retained tag, all with the entry's value
+    add(Contract(
+        f"{M}:Entry.__iter__",
+        params={"self": "Entry"}, returns="Seq[Candidate]",
+        ensures=[
+            ("each-yielded-is-retained", "forall(lambda i: implies(0 <= i and i < len(result), result[i].value == self._value and result[i].info is not None and the(result[i].info) in self._infos), Int)"),
+            ("each-retained-is-yielded", "forall(lambda t: implies(t in self._infos, exists(lambda i: 0 <= i and i < len(result) and result[i].info == t, Int)), Tag)"),
+        ],
+        loops={0: LoopSpec(
+            header="for info in self._infos", index="k", length="n", seq="P",
+            invariants=[
+                "len(__yielded__) == k",
+                "forall(lambda i: implies(0 <= i and i < k, __yielded__[i].value == self._value and __yielded__[i].info is not None and the(__yielded__[i].info) == P(i)), Int)",
+            ])},
+        locals={"__yielded__": "Seq[Candidate]"},
+        props=["C16"],
+    ))
+
 
 # ---------------------------------------------------------------------------- bounded scopes
 def _scopes(E):
